@@ -610,3 +610,69 @@ Definition u_unique (rows : list row) : Prop :=
 Definition ix_unique (rows : list row) : Prop :=
   forall r1 r2 x y, In r1 rows -> In r2 rows -> rs r1 = Some x -> rs r2 = Some x ->
                     rfk r1 = Some y -> rfk r2 = Some y -> r1 = r2.
+
+(* ================================================================ connections *)
+(* A SelectResults carries an optional per-call connection (ops['connection'],
+   given as select(connection=c) / selectBy(connection=c) or by .connection(c));
+   clone() copies ops, so .orderBy/.reversed/.distinct/.filter keep it.  Every
+   operation of the object -- iteration, count(), sum/min/max/avg, getOne -- runs
+   on `ops.get('connection') or sourceClass._connection`, and sees the table as
+   THAT connection sees it: another database for a second connection, the
+   committed rows plus its own uncommitted writes for a Transaction. *)
+Definition conn := N.
+Definition store := conn -> list row.            (* the contents of tq as seen through each connection *)
+Record bsr := mkbsr { b_sr : sr; b_conn : option conn }.
+Inductive bcall :=
+| BCall (m : mcall)
+| BConnection (c : option conn).                  (* .connection(c); None: .connection(None), back to the class's *)
+Definition b_call (b : bsr) (m : bcall) : bsr :=
+  match m with
+  | BCall m => mkbsr (sr_call (b_sr b) m) (b_conn b)
+  | BConnection c => mkbsr (b_sr b) c
+  end.
+Definition b_calls (b : bsr) (ms : list bcall) : bsr := fold_left b_call ms b.
+Definition b_make (s : src) (c : option conn) : option bsr := option_map (fun x => mkbsr x c) (sr_make s).
+(* SelectResults._getConnection *)
+Definition conn_or (cls : conn) (c : option conn) : conn := match c with Some k => k | None => cls end.
+Definition b_target (cls : conn) (b : bsr) : conn := conn_or cls (b_conn b).
+Definition b_rows (st : store) (cls : conn) (b : bsr) : list row := st (b_target cls b).
+Definition b_accepts (st : store) (cls : conn) (dflt : oby) (b : bsr) (out : list row) : Prop :=
+  select_accepts (sr_sql dflt (b_sr b)) (b_rows st cls b) out.
+Definition b_count (st : store) (cls : conn) (b : bsr) (win : pv * pv) : out := run_count (b_sr b) win (b_rows st cls b).
+Definition b_agg (st : store) (cls : conn) (b : bsr) (win : pv * pv) (m : aggmeth) (attr : ratom) : out :=
+  run_agg (b_sr b) win m attr (b_rows st cls b).
+Definition b_getone (st : store) (cls : conn) (dflt : oby) (b : bsr) (nodefault : bool) : out :=
+  run_getone dflt (b_sr b) nodefault (b_rows st cls b).
+(* by<Col>(v, connection=c), ix.get(.., connection=c) *)
+Definition b_altid_accepts (st : store) (cls : conn) (c : option conn) (v : kval) (o : out) : Prop :=
+  altid_accepts v (st (conn_or cls c)) o.
+Definition b_index (st : store) (cls : conn) (c : option conn) (dflt : oby) (kws : list (kw * kval)) : out :=
+  run_index dflt kws (st (conn_or cls c)).
+(* the chain without its .connection() calls *)
+Definition plain_calls (ms : list bcall) : list mcall :=
+  flat_map (fun m => match m with BCall x => [x] | BConnection _ => [] end) ms.
+(* the binding in force at the end: the last .connection() call, else the keyword *)
+Definition last_binding (c0 : option conn) (ms : list bcall) : option conn :=
+  fold_left (fun c m => match m with BConnection k => k | BCall _ => c end) ms c0.
+
+(* --- what a Transaction sees: the committed rows with its own writes applied in order *)
+Inductive wr :=
+| WPut (r : row)           (* INSERT of a new id, or UPDATE of that id to this row *)
+| WDel (i : Z).            (* DELETE of that id *)
+Definition wr_id (w : wr) : Z := match w with WPut r => rid r | WDel i => i end.
+Definition has_id (i : Z) (rows : list row) : bool := existsb (fun x => rid x =? i) rows.
+Definition apply_wr (rows : list row) (w : wr) : list row :=
+  match w with
+  | WPut r => if has_id (rid r) rows then map (fun x => if rid x =? rid r then r else x) rows else rows ++ [r]
+  | WDel i => filter (fun x => negb (rid x =? i)) rows
+  end.
+Definition txn_view (committed : list row) (ws : list wr) : list row := fold_left apply_wr ws committed.
+(* the last write to an id *)
+Definition last_write (i : Z) (ws : list wr) : option wr :=
+  fold_left (fun acc w => if wr_id w =? i then Some w else acc) ws None.
+(* a database with one open transaction: connection 0 is the class's own (another
+   database), 1 a plain connection to the file, 2 the transaction *)
+Definition txn_store (other committed : list row) (ws : list wr) : store :=
+  fun c => match c with 0%N => other | 1%N => committed | _ => txn_view committed ws end.
+(* tables compared as sets of rows (ids unique): same rows in any order *)
+Definition same_table (a b : list row) : bool := perm_b a b.
